@@ -85,14 +85,19 @@ Fixpoint ends_with (suf s : list ascii) : bool :=
   list_eqb s suf || match s with [] => false | _ :: r => ends_with suf r end.
 
 (* ------------------------------------------------------------------ literals (abstract syntax) *)
-Inductive radix := RDec | RHex | ROct | RBin.
-Definition base_of (r : radix) : nat := match r with RDec => 10 | RHex => 16 | ROct => 8 | RBin => 2 end.
+Inductive radix := RDec | RHex | ROct | RBin | RHexU | ROctU | RBinU.      (* ..U: upper-case prefix 0X 0O 0B *)
+Definition base_of (r : radix) : nat :=
+  match r with RDec => 10 | RHex | RHexU => 16 | ROct | ROctU => 8 | RBin | RBinU => 2 end.
 Definition prefix_of (r : radix) : list ascii :=
-  match r with RDec => [] | RHex => chars "0x" | ROct => chars "0o" | RBin => chars "0b" end.
+  match r with
+  | RDec => [] | RHex => chars "0x" | ROct => chars "0o" | RBin => chars "0b"
+  | RHexU => chars "0X" | ROctU => chars "0O" | RBinU => chars "0B"
+  end.
 
 Inductive lit :=
 | LInt (r : radix) (groups : list (list nat)) (upper : bool) (suffix : string)   (* 42  0x1F  1_000  0b1u8  10n *)
-| LFloat (ip fp : list nat) (ex : option (bool * list nat)) (suffix : string)    (* 3.14  1e6  2.5e-3  3.14_f64 *)
+| LFloat (ip fp : list nat) (ex : option ((bool * bool) * list nat)) (suffix : string)
+                      (* 3.14  1e6  2.5e-3  1E5  3.14_f64; exponent = ((negative, upper-case marker E), digits) *)
 | LBool (b : bool)
 | LStr (s : string)                                                              (* a string that may contain digits *)
 | LIdent (s : string).
@@ -100,10 +105,10 @@ Inductive lit :=
 Fixpoint digits_val (base : Z) (acc : Z) (ds : list nat) : Z :=
   match ds with [] => acc | d :: r => digits_val base (acc * base + Z.of_nat d)%Z r end.
 
-Definition exp_val (ex : option (bool * list nat)) : Z :=
+Definition exp_val (ex : option ((bool * bool) * list nat)) : Z :=
   match ex with
   | None => 0%Z
-  | Some (neg, ds) => let v := digits_val 10 0 ds in if neg then (- v)%Z else v
+  | Some ((neg, _), ds) => let v := digits_val 10 0 ds in if neg then (- v)%Z else v
   end.
 
 (* the (unnormalised) value of a numeric literal *)
@@ -127,12 +132,12 @@ Fixpoint render_groups (upper : bool) (gs : list (list nat)) : list ascii :=
   | g :: r => render_digits upper g ++ c_us :: render_groups upper r
   end.
 
-Definition float_body (ip fp : list nat) (ex : option (bool * list nat)) : list ascii :=
+Definition float_body (ip fp : list nat) (ex : option ((bool * bool) * list nat)) : list ascii :=
   render_digits false ip
   ++ (match fp with [] => [] | _ => c_dot :: render_digits false fp end)
   ++ (match ex with
       | None => []
-      | Some (neg, ds) => "e"%char :: (if neg then ["-"%char] else []) ++ render_digits false ds
+      | Some ((neg, eup), ds) => (if eup then "E"%char else "e"%char) :: (if neg then ["-"%char] else []) ++ render_digits false ds
       end).
 
 Definition lit_body (l : lit) : list ascii :=
